@@ -25,6 +25,7 @@ parts = [
   Raw("prelude/std.rs"),
   Raw("prelude/bytes.rs"),
   Raw("prelude/msg.rs"),
+  Raw("prelude/framebatch.rs"),
   Raw("prelude/zmtp_spec.rs"),
   Item(CMD, "const", "ZMTP_FLAG_LONG"),
   Item(CMD, "const", "ZMTP_FLAG_MORE"),
@@ -56,11 +57,14 @@ parts = [
      ensures=slice_contract("src@", True)),
   Fn(MP, "peek_frame_len", impl=IMPL, emit_impl="impl ZmtpManualParser",
      ensures=[
-       ("C03+C07:err_iff_oversize", "r is Err <==> oversize(src@, self.max_msg_size)"),
-       ("C03:some_iff_header", "(r matches Ok(Some(_))) <==> (hdr_complete(src@) && !oversize(src@, self.max_msg_size))"),
+       # a frame whose total length is not representable in usize is refused (it can never be buffered)
+       ("C03+C07:err_iff_oversize", "r is Err <==> (oversize(src@, self.max_msg_size) || (hdr_complete(src@) && frame_len(src@) > usize::MAX))"),
+       ("C03:some_iff_header", "(r matches Ok(Some(_))) <==> (hdr_complete(src@) && !oversize(src@, self.max_msg_size) && frame_len(src@) <= usize::MAX)"),
        ("C03:len_value", "r matches Ok(Some(n)) ==> n == frame_len(src@)"),
      ]),
 ]
+
+FNS = {p.name: p for p in parts if isinstance(p, Fn)}
 
 unit = Unit("dec", ["C03", "C04", "C07"], parts, safety_props=["C03", "C07"],
             notes="stateful buffer decoder, slice decoder, zero-copy Bytes decoder, length peek")
